@@ -17,22 +17,35 @@ open World Ark.Props.C01World
 
 namespace World
 
-/-- the scan of `getExchangeTargets`: when every relation names a relation column it returns the
-    edited target list; it reports a change exactly when some step found a different target -/
+/-- the scan of `getExchangeTargets`: when every relation names a relation column and no
+    component is named twice (nor was seen before — the check added by the repair of D19) it
+    returns the edited target list; it reports a change exactly when some step found a different
+    target -/
 theorem getExchangeTargets_go_spec (T : Table) (w : World) : ∀ (rels : List RelID) (ts : List Ent)
-    (ch : Bool) (cm : Mask),
+    (ch : Bool) (cm : Mask) (seen : List Comp),
     (∀ (r : RelID), r ∈ rels → ∃ (i : Nat), T.colIdx r.comp = some i ∧
       T.isRel.getD i false = true) →
+    (rels.map (·.comp)).Nodup → (∀ (r : RelID), r ∈ rels → r.comp ∉ seen) →
     ∃ (ch' : Bool) (cm' : Mask),
-      getExchangeTargets.go T w ts ch cm rels = .ok (setTargets T.colIdx rels ts, ch', cm') w ∧
+      getExchangeTargets.go T w ts ch cm seen rels = .ok (setTargets T.colIdx rels ts, ch', cm') w ∧
       (ch' = false → ch = false ∧ setTargets T.colIdx rels ts = ts) ∧
       (ch' = true → ch = true ∨ ∃ (r : RelID), r ∈ rels ∧ ∃ (i : Nat),
         T.colIdx r.comp = some i ∧ r.target ≠ ts.getD i Ent.zero)
-  | [], ts, ch, cm, _ => ⟨ch, cm, rfl, fun h => ⟨h, rfl⟩, fun h => Or.inl h⟩
-  | r :: rest, ts, ch, cm, h => by
+  | [], ts, ch, cm, _, _, _, _ => ⟨ch, cm, rfl, fun h => ⟨h, rfl⟩, fun h => Or.inl h⟩
+  | r :: rest, ts, ch, cm, seen, h, hnd, hns => by
     obtain ⟨i, hc, hr⟩ := h r List.mem_cons_self
     have hrest := fun r' hr' => h r' (List.mem_cons_of_mem _ hr')
-    simp only [getExchangeTargets.go, hc, hr, Bool.not_true, Bool.false_eq_true, if_false]
+    rw [List.map_cons, List.nodup_cons] at hnd
+    have hseen : seen.contains r.comp = false := by
+      cases hh : seen.contains r.comp with
+      | false => rfl
+      | true => exact absurd (List.contains_iff_mem.1 hh) (hns r List.mem_cons_self)
+    have hns' : ∀ (r' : RelID), r' ∈ rest → r'.comp ∉ r.comp :: seen := by
+      intro r' hr' hin
+      rcases List.mem_cons.1 hin with he | hm
+      · exact hnd.1 (List.mem_map.2 ⟨r', hr', he⟩)
+      · exact hns r' (List.mem_cons_of_mem _ hr') hm
+    simp only [getExchangeTargets.go, hseen, hc, hr, Bool.not_true, Bool.false_eq_true, if_false]
     by_cases heq : (r.target == ts.getD i Ent.zero) = true
     · rw [if_pos heq]
       have heq' : r.target = ts.getD i Ent.zero := by simpa using heq
@@ -44,7 +57,8 @@ theorem getExchangeTargets_go_spec (T : Table) (w : World) : ∀ (rels : List Re
         · rw [heq', List.getD_eq_getElem?_getD, List.getElem?_eq_getElem hlt]
           exact List.set_getElem_self hlt
         · exact List.set_eq_of_length_le hge
-      obtain ⟨ch', cm', e1, e2, e3⟩ := getExchangeTargets_go_spec T w rest ts ch cm hrest
+      obtain ⟨ch', cm', e1, e2, e3⟩ :=
+        getExchangeTargets_go_spec T w rest ts ch cm (r.comp :: seen) hrest hnd.2 hns'
       refine ⟨ch', cm', ?_, ?_, ?_⟩
       · rw [setTargets_cons, hstep]; exact e1
       · intro hh; rw [setTargets_cons, hstep]; exact e2 hh
@@ -57,23 +71,28 @@ theorem getExchangeTargets_go_spec (T : Table) (w : World) : ∀ (rels : List Re
       have hstep : setStep T.colIdx ts r = ts.set i r.target := by
         unfold setStep; rw [hc]
       obtain ⟨ch', cm', e1, e2, _⟩ :=
-        getExchangeTargets_go_spec T w rest (ts.set i r.target) true (cm.set r.comp) hrest
+        getExchangeTargets_go_spec T w rest (ts.set i r.target) true (cm.set r.comp)
+          (r.comp :: seen) hrest hnd.2 hns'
       refine ⟨ch', cm', ?_, ?_, ?_⟩
       · rw [setTargets_cons, hstep]; exact e1
       · intro hh; exact absurd (e2 hh).1 (by simp)
       · intro _; exact Or.inr ⟨r, List.mem_cons_self, i, hc, hne⟩
 
-/-- `getExchangeTargets` on a table all of whose named columns are relation columns -/
+/-- `getExchangeTargets` on a table all of whose named columns are relation columns, no
+    component named twice -/
 theorem getExchangeTargets_spec (T : Table) (rels : List RelID) (w : World)
     (h : ∀ (r : RelID), r ∈ rels → ∃ (i : Nat), T.colIdx r.comp = some i ∧
-      T.isRel.getD i false = true) :
+      T.isRel.getD i false = true)
+    (hnd : (rels.map (·.comp)).Nodup) :
     ∃ (ch : Bool) (cm : Mask),
       getExchangeTargets T rels w =
         .ok (if ch then colRels T.ids (setTargets T.colIdx rels T.targets) T.isRel else [], ch, cm) w ∧
       (ch = false → setTargets T.colIdx rels T.targets = T.targets) ∧
       (ch = true → ∃ (r : RelID), r ∈ rels ∧ ∃ (i : Nat),
         T.colIdx r.comp = some i ∧ r.target ≠ T.targets.getD i Ent.zero) := by
-  obtain ⟨ch, cm, e1, e2, e3⟩ := getExchangeTargets_go_spec T w rels T.targets false Mask.empty h
+  obtain ⟨ch, cm, e1, e2, e3⟩ :=
+    getExchangeTargets_go_spec T w rels T.targets false Mask.empty [] h hnd
+      (fun _ _ hm => by cases hm)
   refine ⟨ch, cm, ?_, fun hh => (e2 hh).2, fun hh => ?_⟩
   · unfold getExchangeTargets
     rw [e1]
@@ -84,19 +103,72 @@ theorem getExchangeTargets_spec (T : Table) (rels : List RelID) (w : World)
     · cases k
     · exact k
 
-/-- the two ways `getExchangeTargets` rejects: it never changes the state -/
+/-- the ways `getExchangeTargets` rejects: it never changes the state -/
 theorem getExchangeTargets_go_state (T : Table) (w : World) : ∀ (rels : List RelID) (ts : List Ent)
-    (ch : Bool) (cm : Mask), (getExchangeTargets.go T w ts ch cm rels).state = w
-  | [], _, _, _ => rfl
-  | r :: rest, ts, ch, cm => by
+    (ch : Bool) (cm : Mask) (seen : List Comp),
+    (getExchangeTargets.go T w ts ch cm seen rels).state = w
+  | [], _, _, _, _ => rfl
+  | r :: rest, ts, ch, cm, seen => by
     simp only [getExchangeTargets.go]
     split
     · rfl
     · split
       · rfl
       · split
-        · exact getExchangeTargets_go_state T w rest _ _ _
-        · exact getExchangeTargets_go_state T w rest _ _ _
+        · rfl
+        · split
+          · exact getExchangeTargets_go_state T w rest _ _ _ _
+          · exact getExchangeTargets_go_state T w rest _ _ _ _
+
+/-- the scan refuses a relation list that names a component twice (or one seen before), without
+    effect (`.relTwice` at the first repetition unless an earlier relation names no relation
+    column) -/
+theorem getExchangeTargets_go_not_nodup (T : Table) (w : World) : ∀ (rels : List RelID)
+    (ts : List Ent) (ch : Bool) (cm : Mask) (seen : List Comp),
+    ¬ ((rels.map (·.comp)).Nodup ∧ ∀ (r : RelID), r ∈ rels → r.comp ∉ seen) →
+    ∃ (k : PanicKind), getExchangeTargets.go T w ts ch cm seen rels = .panic k w
+  | [], _, _, _, _, h => by
+    exact absurd ⟨List.nodup_nil, fun _ hr => by cases hr⟩ h
+  | r :: rest, ts, ch, cm, seen, h => by
+    simp only [getExchangeTargets.go]
+    cases hs : seen.contains r.comp with
+    | true => exact ⟨_, rfl⟩
+    | false =>
+      simp only [Bool.false_eq_true, if_false]
+      have hs' : r.comp ∉ seen := fun hm => by
+        rw [List.contains_iff_mem.2 hm] at hs; cases hs
+      cases hc : T.colIdx r.comp with
+      | none => exact ⟨_, rfl⟩
+      | some i =>
+        simp only
+        have hrest : ¬ ((rest.map (·.comp)).Nodup ∧
+            ∀ (r' : RelID), r' ∈ rest → r'.comp ∉ r.comp :: seen) := by
+          rintro ⟨h1, h2⟩
+          apply h
+          refine ⟨?_, ?_⟩
+          · rw [List.map_cons, List.nodup_cons]
+            refine ⟨?_, h1⟩
+            intro hm
+            obtain ⟨r', hr', he⟩ := List.mem_map.1 hm
+            exact h2 r' hr' (by rw [he]; exact List.mem_cons_self)
+          · intro r' hr'
+            rcases List.mem_cons.1 hr' with rfl | hm
+            · exact hs'
+            · exact fun hin => h2 r' hm (List.mem_cons_of_mem _ hin)
+        split
+        · exact ⟨_, rfl⟩
+        · split
+          · exact getExchangeTargets_go_not_nodup T w rest _ _ _ _ hrest
+          · exact getExchangeTargets_go_not_nodup T w rest _ _ _ _ hrest
+
+/-- **the repair of defect D19**: `getExchangeTargets` refuses a relation list naming one
+    component twice, the state unchanged -/
+theorem getExchangeTargets_not_nodup (T : Table) (rels : List RelID) (w : World)
+    (h : ¬ (rels.map (·.comp)).Nodup) :
+    ∃ (k : PanicKind), getExchangeTargets T rels w = .panic k w := by
+  obtain ⟨k, hk⟩ := getExchangeTargets_go_not_nodup T w rels T.targets false Mask.empty []
+    (fun hh => h hh.1)
+  exact ⟨k, by unfold getExchangeTargets; rw [hk]⟩
 
 end World
 
@@ -399,6 +471,18 @@ end World
 
 namespace World
 
+/-- **the repair of defect D19**: `setRelations` naming one relation component twice is refused,
+    the world unchanged (before the repair such a call could be accepted and "move" the entity
+    into its own table) -/
+theorem setRelationsCore_not_nodup (run : ProbeRunner) (e : Ent) (rels : List RelID) (w : World)
+    (hl : w.isLocked = false) (ha : w.alive e = true) (hne : rels.isEmpty = false)
+    (h : ¬ (rels.map (·.comp)).Nodup) :
+    ∃ (k : PanicKind), setRelationsCore run e rels w = .panic k w := by
+  cases hix : w.index e.id with
+  | mk oldT row =>
+    obtain ⟨k, hk⟩ := getExchangeTargets_not_nodup (w.tbl oldT) rels w h
+    exact ⟨k, setRelationsCore_panic_x run e rels w hl ha hne hix hk⟩
+
 theorem addMove_more (w : World) (e : Ent) (oldT row newT : Nat) (keep : Mask) :
     (addMove w e oldT row newT keep).relationArchetypes = w.relationArchetypes ∧
     (addMove w e oldT row newT keep).cache = w.cache := by
@@ -512,7 +596,7 @@ theorem setRelationsCore_spec (run : ProbeRunner) {w : World} {fl : List Nat} (h
     exact hc r hr (colIdx_inj hri hi)
   have hlen' : (setTargets (w.tbl oldT).colIdx rels (w.tbl oldT).targets).length =
       (w.tbl oldT).ids.length := by rw [setTargets_length, hTex.tlen]
-  obtain ⟨ch, cm, hx, hfalse, htrue⟩ := getExchangeTargets_spec (w.tbl oldT) rels w hcols
+  obtain ⟨ch, cm, hx, hfalse, htrue⟩ := getExchangeTargets_spec (w.tbl oldT) rels w hcols hnd
   cases ch with
   | false =>
     -- nothing changes
@@ -899,7 +983,7 @@ theorem relGet_total {w : World} {a tid : Nat} {ts' : List Ent} (hR : RelInv w)
         obtain ⟨i, a1, a2, a3⟩ := f3 r hr
         exact ⟨hS.isRelComp_of_col hT a1 a2, by rw [← a3]; exact hgood i a2⟩
       obtain ⟨nt, w1, hct, _⟩ := hS.createTable_total hR.aux.cacheRels halt
-        (fun hf => by rw [hrelA] at hf; cases hf) hlenA hcols hvalid
+        (fun hf => by rw [hrelA] at hf; cases hf) hlenA hcols (by rw [← hall]; exact f1) hvalid
       exact ⟨nt, w1, getOrCreate_created hres hct⟩
 
 /-- **a valid `setRelations` never fails**: live entity, relation components it has, none
@@ -907,7 +991,7 @@ theorem relGet_total {w : World} {a tid : Nat} {ts' : List Ent} (hR : RelInv w)
 theorem setRelationsCore_total (run : ProbeRunner) {w : World} {fl : List Nat} (h : TInv w fl)
     (hl : w.isLocked = false) (hno : ∀ (evt : Nat), w.obs.hasObservers evt = false) {e : Ent}
     (h2 : 2 ≤ e.id) (hnf : e.id ∉ fl) (ha : w.alive e = true) {rels : List RelID}
-    (hne : rels.isEmpty = false)
+    (hne : rels.isEmpty = false) (hnd : (rels.map (·.comp)).Nodup)
     (hhas : ∀ (r : RelID), r ∈ rels → (targetOf w e.id r.comp).isSome = true)
     (hval : ∀ (r : RelID), r ∈ rels → r.target.isZero = true ∨ w.alive r.target = true) :
     ∃ (w' : World), setRelationsCore run e rels w = .ok () w' := by
@@ -930,7 +1014,7 @@ theorem setRelationsCore_total (run : ProbeRunner) {w : World} {fl : List Nat} (
     rw [hT] at h3
     obtain rfl := Option.some.inj h3
     exact ⟨k, h4, h5⟩
-  obtain ⟨ch, cm, hx, _, htrue⟩ := getExchangeTargets_spec (w.tbl oldT) rels w hcols
+  obtain ⟨ch, cm, hx, _, htrue⟩ := getExchangeTargets_spec (w.tbl oldT) rels w hcols hnd
   cases ch with
   | false => exact ⟨w, setRelationsCore_unchanged run e rels w hl ha hne hix hx⟩
   | true =>
